@@ -315,6 +315,11 @@ func c05cliScenarios() []c05cliScn {
 		S("json,stdin", "obisummary", "lines", c05cliNRec, "a.fasta", nil),
 		S("yaml,fastq", "obisummary", "lines", c05cliNRec, "b.fastq", nil, "--yaml-output"),
 		S("json,4files", "obisummary", "lines", c05cliNRec, "", nil, append([]string{"--json-output"}, multi...)...),
+		// records as obiuniq/obiclean leave them: per-sample maps, status without weight, weight without status, vectors
+		// (every counter of the per-worker summaries gets asymmetric partial sums)
+		S("json,obiclean-status-only,stdin", "obisummary", "lines", c05cliNRec, "oc1.fasta", nil),
+		S("json,obiclean-mixed,stdin", "obisummary", "lines", c05cliNRec, "oc2.fasta", nil),
+		S("yaml,obiclean-mixed,map-summary,stdin", "obisummary", "lines", c05cliNRec, "oc2.fasta", nil, "--yaml-output"),
 		// ---- obicsv
 		S("-i-s", "obicsv", "lines", c05cliNRec, "a.fasta", nil, "-i", "-s"),
 		S("-i-count-k-k-d", "obicsv", "lines", c05cliNRec, "a.fasta", nil, "-i", "--count", "-k", "tag", "-k", "sample", "-d", "--na-value", "none"),
@@ -784,6 +789,39 @@ func TestVerifC05CLI(t *testing.T) {
 			fmt.Fprintf(&b, ">u%02d {\"count\":%d,\"tag\":\"t%d\",\"sample\":\"s%c\",\"len_class\":%d}\n%s\n", i+1, i%3+1, i%2, 'A'+rune(i%3), i%4, c05cliDNA(20+i, 4000+uint32(i)))
 		}
 		w("u.fasta", b.Bytes())
+	}
+	for variant := 1; variant <= 2; variant++ {
+		var b bytes.Buffer
+		for i := 0; i < c05cliNRec; i++ {
+			na, nb := i%3+1, (i*5)%4 // reads in samples sA, sB (0: absent from the sample)
+			ms := fmt.Sprintf("\"sA\":%d", na)
+			st := fmt.Sprintf("\"sA\":\"%c\"", "his"[i%3])
+			wt := fmt.Sprintf("\"sA\":%d", na+i%2)
+			if nb > 0 {
+				ms += fmt.Sprintf(",\"sB\":%d", nb)
+				st += fmt.Sprintf(",\"sB\":\"%c\"", "ihs"[i%3])
+				wt += fmt.Sprintf(",\"sB\":%d", nb)
+			}
+			t := fmt.Sprintf("\"count\":%d,\"merged_sample\":{%s}", na+nb, ms)
+			hasStatus, hasWeight := true, false
+			if variant == 2 {
+				hasStatus, hasWeight = i%4 != 3, i%4 == 1 || i%4 == 3
+				if i%6 == 5 {
+					t = fmt.Sprintf("\"count\":%d,\"sample\":\"sC\"", na) // no merged map at all
+				}
+				if i%5 == 2 {
+					t += fmt.Sprintf(",\"path\":[\"a\",\"b%d\"],\"merged_tag\":{\"x\":%d}", i%2, i%3+1)
+				}
+			}
+			if hasStatus {
+				t += ",\"obiclean_status\":{" + st + "}"
+			}
+			if hasWeight {
+				t += ",\"obiclean_weight\":{" + wt + "}"
+			}
+			fmt.Fprintf(&b, ">oc%02d {%s}\n%s\n", i+1, t, c05cliDNA(30+i%7, 8000+uint32(i)))
+		}
+		w(fmt.Sprintf("oc%d.fasta", variant), b.Bytes())
 	}
 	for k := 0; k < 4; k++ {
 		w(fmt.Sprintf("m%d.fasta", k+1), c05cliFasta(fmt.Sprintf("m%d_", k+1), c05cliNRec/4, uint32(200+10*k)))
